@@ -645,6 +645,12 @@ class Evaluator:
                 self.add_cond(st, unknown[0], truth)
         else:
             st.known[t] = truth
+            # order duality on the same pair of terms:  a <= b  is the negation of  b < a
+            if tag == "cmp" and t[1] in ("le", "lt"):
+                dual = ("cmp", "lt" if t[1] == "le" else "le", t[3], t[2])
+                if st.known.get(dual) is truth:
+                    st.feasible = False
+                st.known.setdefault(dual, not truth)
         # re-check the compound conditions recorded so far
         for (c, v) in st.cond:
             cv = tv(c, st.known)
